@@ -555,8 +555,10 @@ public:
         }
 
         // Possibly reuse in the I->S removal.
-        if (infected <= 0)
+        if (infected <= 0) {
+            reset_total_host(row, col);
             return;
+        }
         if (mortality_tracker_vector_.size() != mortality.size()) {
             throw std::invalid_argument(
                 "mortality is not the same size as the internal mortality tracker ("
